@@ -271,6 +271,7 @@ Op gen_prng(Ctx &c, GPrng &g, int obj, bool erase_bias, bool sys_only) {
         else if (allow_sys && y < 36 && c.armed != C16) o.flags |= F_NULLCB;
         g.system = (o.flags & (F_SYSTEM | F_NULLCB)) != 0;
         o.a = r.chance(1, 4) ? 0 : r.chance(1, 25) ? r.below(400) : r.below(60);
+        if (r.chance(1, c.thorough ? 1500 : 4000)) { static const uint64_t BIGC[] = {65535, 65536, 65537, 1048575, 1048576, 1048577, 1100000}; o.a = BIGC[r.below(7)]; }   // length corners of the personalisation string
         if (o.a == 0 && r.chance(1, 2)) o.flags |= F_NOCUSTOM;
         if (g.system) o.os.push_back(os_script(c, true)); else o.del.push_back(delivery(c));
         g.st = ST_LIVE; g.counter = 1; g.limit = 32; g.since = 0;
@@ -312,7 +313,7 @@ Op gen_prng(Ctx &c, GPrng &g, int obj, bool erase_bias, bool sys_only) {
             uint64_t reps;
             if (y < 55) reps = left + r.below(3);
             else if (y < 90) reps = 1 + r.below(40);
-            else if (y < 96 || (c.armed != C16 && c.armed != C15) || (c.armed == C15 && !c.thorough && !r.chance(1, 20))) { static const uint64_t W8[] = {253, 254, 255, 256, 257}; reps = W8[r.below(5)]; }
+            else if (y < 96 || (c.armed != C16 && c.armed != C15 && c.armed != C17) || ((c.armed == C15 || c.armed == C17) && !c.thorough && !r.chance(1, 20))) { static const uint64_t W8[] = {253, 254, 255, 256, 257}; reps = W8[r.below(5)]; }
             else { static const uint64_t W16[] = {65533, 65534, 65535, 65536, 65537, 70000}; reps = W16[r.below(6)]; if (!c.thorough && r.chance(2, 3)) reps = 255; }
             if (reps > 70000) reps = 70000;
             if (reps > 0) { o.b = reps - 1; g.counter += reps - 1; }
